@@ -345,8 +345,15 @@ def judge(ti, lines, plain, deco, names, via_stdin, level, ps, dsx):
     elif pl not in ok_lines and not lookahead:
         return viol('plain-line:' + text[:50], 'diagnostic line %d:%d is neither on the violation (line%s %s) nor the first token after it: %s; template `%s`'
                     % (pl, pc, 's' if len(vi) > 1 else '', ','.join(str(i + 1) for i in vi), ps[3][:160], text[:100]))
+    elif lookahead and not (open_ended(text) or re.search(r'expected|EOF|saw ', pmsg)):
+        # the first token after the violation is a token of the offending construct only when the complaint is about that token (a missing
+        # terminator, an unclosed construct); a finished construct is blamed on one of its own tokens
+        return viol('plain-lookahead:' + text[:50], 'diagnostic %d:%d is located at the first token after the finished construct on line%s %s, not at one of its tokens: %s; template `%s`'
+                    % (pl, pc, 's' if len(vi) > 1 else '', ','.join(str(i + 1) for i in vi), ps[3][:160], text[:100]))
     else:
         rec['counts'].append(('plain-position', 'lookahead-token' if lookahead else 'on-violation-line'))
+        if lookahead:
+            rec['lookahead_msg'] = (text[:70], pmsg[:70])
     # a complaint about the contents of a literal (escape, encoding, range) blames that literal, not a neighbour: the literal may be the last token
     # before a line marker, and then a neighbour is in another file
     if re.search(r'escape|UTF-8|out of range|multi-character|character constant', pmsg):
@@ -413,6 +420,9 @@ def run(tier):
                 lst2 = ck.extra.setdefault('decoration_changed_diagnostic', [])
                 if len(lst2) < 20:
                     lst2.append(rec['changed'])
+            if rec.get('lookahead_msg'):
+                la = ck.extra.setdefault('lookahead_blame', {})
+                la['%s | %s' % rec['lookahead_msg']] = la.get('%s | %s' % rec['lookahead_msg'], 0) + 1
             if rec.get('coldiff'):
                 lst2 = ck.extra.setdefault('column_differences', [])
                 if len(lst2) < 10:
